@@ -287,6 +287,31 @@ func c16Worker(args []string) int {
 				}
 			}
 		}
+		// ... and when two import paths differ only in the case of their letters (the order in which names are
+		// handed out has to be a total order on paths)
+		{
+			first := ""
+			for k := 0; k < 60; k++ {
+				f, err := decorator.Parse("package p\n\nvar _ = 1\n")
+				if err != nil {
+					break
+				}
+				for i, p := range []string{"github.com/Sirupsen/logrus", "github.com/sirupsen/logrus", "example.com/x/Log", "example.com/x/log"} {
+					f.Decls = append(f.Decls, &dst.GenDecl{Tok: token.VAR, Specs: []dst.Spec{&dst.ValueSpec{Names: []*dst.Ident{dst.NewIdent("_")}, Values: []dst.Expr{&dst.Ident{Name: fmt.Sprintf("V%d", i), Path: p}}}}})
+				}
+				var buf bytes.Buffer
+				if err := decorator.NewRestorerWithImports("main", guess.New()).Fprint(&buf, f); err != nil {
+					fmt.Println("DIFF repeat-case: error", err)
+					break
+				}
+				if first == "" {
+					first = buf.String()
+				} else if buf.String() != first {
+					fmt.Printf("DIFF repeat-case %d: output differs between identical calls:\n%s\nvs\n%s\n", k, first, buf.String())
+					break
+				}
+			}
+		}
 		fmt.Println("STRESS-DONE")
 		return 0
 	case "trace":
